@@ -168,7 +168,7 @@ def replay_case(ctx, case):
 
 def run(ctx):
     names = sorted(ops.OPS)
-    n = len(names) * (10 if ctx.tier == 'quick' else 150)
+    n = len(names) * (25 if ctx.tier == "quick" else 200)
     for i in range(n):
         name = names[i % len(names)]
         case = ops.gen_case(ctx.rng, ctx.tier, name)
